@@ -277,6 +277,11 @@ impl ThreadInfoX86 {
 
         {
             let fs = &self.fpregs;
+            // The context has a member of its own for MXCSR besides the one in the save area
+            #[cfg(target_arch = "x86_64")]
+            {
+                out.mx_csr = fs.mxcsr;
+            }
             let mut float_save = crate::minidump_cpu::FloatStateCPU {
                 control_word: fs.cwd,
                 status_word: fs.swd,
